@@ -440,6 +440,27 @@ func runPlannerCases(cfg vhlib.Config, sum *vhlib.Summary) {
 	flush()
 }
 
+func stressMain(args []string) {
+	r := vhlib.NewRng(7)
+	t := genClustered(r, 36)
+	for _, spl := range args {
+		ref := runChain(spl, t, []int{36}, false)
+		sp := &Spec{Cmp: cmpMultiset}
+		bad := 0
+		for i := 0; i < 3000; i++ {
+			sizes := blocksOf(36, 1+i%4)
+			pr := runPlanned(spl, t, sizes, 4, false)
+			if pr.Err != "" || !same(sp, pr.Rows, ref.Rows) {
+				bad++
+				if bad <= 3 {
+					fmt.Printf("iter %d sizes=%v err=%q\n  got  %v\n  want %v\n", i, sizes, pr.Err, rowsStr(pr.Rows), rowsStr(ref.Rows))
+				}
+			}
+		}
+		fmt.Printf("%q: %d bad of 3000\n", spl, bad)
+	}
+}
+
 func probeMain(args []string) {
 	t := &Table{Cols: []string{tsCol, "id", "a", "b", "lat"}}
 	n := 0
